@@ -65,7 +65,7 @@ def stringFacts (rules : J5V.Compile.Rules) (l : Bool) (h : rulesOk j5Env b!"j5.
     FieldFacts (.string rules l) :=
   have hu := rulesOk_unpack h rulesSchema_String schemaOf_StringRules
   plainFacts (f := .string rules l) rfl rfl rules (fun _ _ => rfl) rulesOK_String pi_String_rules specOf_StringRules
-    (by decide +kernel) hu.1 hu.2 (by
+    (show aliasLookup wRules specStringField.aliases = none by decide +kernel) hu.1 hu.2 (by
       simp only [fieldMsg, fieldOneof, typeSchema]
       rw [rulesVals_eq rulesSchema_String schemaOf_StringRules, mkMsg_of schemaOf_Field, mkMsg_of schemaOf_StringField]
       cases rules <;> rfl)
@@ -74,7 +74,7 @@ def boolFacts (rules : J5V.Compile.Rules) (l : Bool) (h : rulesOk j5Env b!"j5.sc
     FieldFacts (.bool rules l) :=
   have hu := rulesOk_unpack h rulesSchema_Bool schemaOf_BoolRules
   plainFacts (f := .bool rules l) rfl rfl rules (fun _ _ => rfl) rulesOK_Bool pi_Bool_rules specOf_BoolRules
-    (by decide +kernel) hu.1 hu.2 (by
+    (show aliasLookup wRules specBoolField.aliases = none by decide +kernel) hu.1 hu.2 (by
       simp only [fieldMsg, fieldOneof, typeSchema]
       rw [rulesVals_eq rulesSchema_Bool schemaOf_BoolRules, mkMsg_of schemaOf_Field, mkMsg_of schemaOf_BoolField]
       cases rules <;> rfl)
@@ -83,7 +83,7 @@ def bytesFacts (rules : J5V.Compile.Rules) (h : rulesOk j5Env b!"j5.schema.v1.By
     FieldFacts (.bytes rules) :=
   have hu := rulesOk_unpack h rulesSchema_Bytes schemaOf_BytesRules
   plainFacts (f := .bytes rules) rfl rfl rules (fun _ _ => rfl) rulesOK_Bytes pi_Bytes_rules specOf_BytesRules
-    (by decide +kernel) hu.1 hu.2 (by
+    (show aliasLookup wRules specBytesField.aliases = none by decide +kernel) hu.1 hu.2 (by
       simp only [fieldMsg, fieldOneof, typeSchema]
       rw [rulesVals_eq rulesSchema_Bytes schemaOf_BytesRules, mkMsg_of schemaOf_Field, mkMsg_of schemaOf_BytesField]
       cases rules <;> rfl)
@@ -92,7 +92,7 @@ def dateFacts (rules : J5V.Compile.Rules) (l : Bool) (h : rulesOk j5Env b!"j5.sc
     FieldFacts (.date rules l) :=
   have hu := rulesOk_unpack h rulesSchema_Date schemaOf_DateRules
   plainFacts (f := .date rules l) rfl rfl rules (fun _ _ => rfl) rulesOK_Date pi_Date_rules specOf_DateRules
-    (by decide +kernel) hu.1 hu.2 (by
+    (show aliasLookup wRules specDateField.aliases = none by decide +kernel) hu.1 hu.2 (by
       simp only [fieldMsg, fieldOneof, typeSchema]
       rw [rulesVals_eq rulesSchema_Date schemaOf_DateRules, mkMsg_of schemaOf_Field, mkMsg_of schemaOf_DateField]
       cases rules <;> rfl)
@@ -101,7 +101,7 @@ def decimalFacts (rules : J5V.Compile.Rules) (l : Bool) (h : rulesOk j5Env b!"j5
     FieldFacts (.decimal rules l) :=
   have hu := rulesOk_unpack h rulesSchema_Decimal schemaOf_DecimalRules
   plainFacts (f := .decimal rules l) rfl rfl rules (fun _ _ => rfl) rulesOK_Decimal pi_Decimal_rules specOf_DecimalRules
-    (by decide +kernel) hu.1 hu.2 (by
+    (show aliasLookup wRules specDecimalField.aliases = none by decide +kernel) hu.1 hu.2 (by
       simp only [fieldMsg, fieldOneof, typeSchema]
       rw [rulesVals_eq rulesSchema_Decimal schemaOf_DecimalRules, mkMsg_of schemaOf_Field, mkMsg_of schemaOf_DecimalField]
       cases rules <;> rfl)
@@ -110,7 +110,7 @@ def timestampFacts (rules : J5V.Compile.Rules) (h : rulesOk j5Env b!"j5.schema.v
     FieldFacts (.timestamp rules) :=
   have hu := rulesOk_unpack h rulesSchema_Timestamp schemaOf_TimestampRules
   plainFacts (f := .timestamp rules) rfl rfl rules (fun _ _ => rfl) rulesOK_Timestamp pi_Timestamp_rules specOf_TimestampRules
-    (by decide +kernel) hu.1 hu.2 (by
+    (show aliasLookup wRules specTimestampField.aliases = none by decide +kernel) hu.1 hu.2 (by
       simp only [fieldMsg, fieldOneof, typeSchema]
       rw [rulesVals_eq rulesSchema_Timestamp schemaOf_TimestampRules, mkMsg_of schemaOf_Field, mkMsg_of schemaOf_TimestampField]
       cases rules <;> rfl)
@@ -158,7 +158,10 @@ def integerFacts (fmt : J5V.Compile.IntFmt) (rules : J5V.Compile.Rules) (l : Boo
     intro d n hn
     simp only [List.mem_singleton] at hn
     subst hn
-    rw [findBlock_rules_self d (by decide +kernel) (propInfo_hasProperty pi_Integer_rules)]; rfl
+    show (findBlock wRules [cfOf sIntegerField specIntegerField d]).isSome = true
+    rw [findBlock_rules_self (sT := sIntegerField) (specT := specIntegerField) d
+      (show aliasLookup wRules specIntegerField.aliases = none by decide +kernel) (propInfo_hasProperty pi_Integer_rules)]
+    rfl
   runQ := by
     intro outer root d hmiss
     refine ⟨typeScope outer (cfOf sIntegerField specIntegerField d) root, specIntegerField, [], rfl, ?_⟩
@@ -175,7 +178,9 @@ def integerFacts (fmt : J5V.Compile.IntFmt) (rules : J5V.Compile.Rules) (l : Boo
     intro sc pfx ek a b C hr
     have hu := rulesOk_unpack h rulesSchema_Integer schemaOf_IntegerRules
     exact hr.rules (by simp) rulesOK_Integer
-      (findBlock_rules_self _ (by decide +kernel) (propInfo_hasProperty pi_Integer_rules)) pi_Integer_rules
+      (findBlock_rules_self (sT := sIntegerField) (specT := specIntegerField) _
+        (show aliasLookup wRules specIntegerField.aliases = none by decide +kernel)
+        (propInfo_hasProperty pi_Integer_rules)) pi_Integer_rules
       specOf_IntegerRules (t := [true, false, false, false]) rfl rfl rules hu.1 hu.2
 
 def floatFacts (fmt : J5V.Compile.FloatFmt) (rules : J5V.Compile.Rules) (l : Bool)
@@ -198,7 +203,10 @@ def floatFacts (fmt : J5V.Compile.FloatFmt) (rules : J5V.Compile.Rules) (l : Boo
     intro d n hn
     simp only [List.mem_singleton] at hn
     subst hn
-    rw [findBlock_rules_self d (by decide +kernel) (propInfo_hasProperty pi_Float_rules)]; rfl
+    show (findBlock wRules [cfOf sFloatField specFloatField d]).isSome = true
+    rw [findBlock_rules_self (sT := sFloatField) (specT := specFloatField) d
+      (show aliasLookup wRules specFloatField.aliases = none by decide +kernel) (propInfo_hasProperty pi_Float_rules)]
+    rfl
   runQ := by
     intro outer root d hmiss
     refine ⟨typeScope outer (cfOf sFloatField specFloatField d) root, specFloatField, [], rfl, ?_⟩
@@ -215,7 +223,9 @@ def floatFacts (fmt : J5V.Compile.FloatFmt) (rules : J5V.Compile.Rules) (l : Boo
     intro sc pfx ek a b C hr
     have hu := rulesOk_unpack h rulesSchema_Float schemaOf_FloatRules
     exact hr.rules (by simp) rulesOK_Float
-      (findBlock_rules_self _ (by decide +kernel) (propInfo_hasProperty pi_Float_rules)) pi_Float_rules
+      (findBlock_rules_self (sT := sFloatField) (specT := specFloatField) _
+        (show aliasLookup wRules specFloatField.aliases = none by decide +kernel)
+        (propInfo_hasProperty pi_Float_rules)) pi_Float_rules
       specOf_FloatRules (t := [true, false, false, false]) rfl rfl rules hu.1 hu.2
 
 end J5V.Walker
